@@ -281,7 +281,7 @@ def build_inputs(run, thorough, plans, fam, deps_dir):
       add("mut%05d" % k, out, None, "mutant")
   # exotic characters in pool texts (MutateExo, optionally after Precondition "ann")
   exo = fam["exo"]
-  nx = 3000 if thorough else len(exo) // 3
+  nx = 1500 if thorough else len(exo) // 3
   frng = random.Random(run.seed + 77)
   fpool = [s for s in pool if "def " in s]
   for k in range(nx):
@@ -571,10 +571,13 @@ def main():
   #     texts), exports the plans; quick enumerates a seed-chosen slice of each family (flag set 0 and
   #     one more of the 32 flag sets of the callables; one of 48 slices of the composed texts, which
   #     every (precondition, tail, region) meets once; form feed and one more character in pool
-  #     texts), thorough all of them;
+  #     texts), thorough larger slices (half of the flag sets, a sixth of the composed texts, all characters);
   # (b) all inputs x pipeline with sub-runs (annotation evaluation) nested <= 2
   if thorough:
-    flags, chars, nsl, sl = list(range(NFLAGSETS)), list(CHARSEQ), 3, run.seed % 3
+    # thorough: flag set 0 and every second one of the other flag sets (two consecutive seeds cover all 32),
+    # all characters, one of 6 slices of the composed texts (every (precondition, tail, region) meets it 8 times)
+    flags = [0] + [f for f in range(1, NFLAGSETS) if bin(f).count("1") % 2 == run.seed % 2]   # each half has every flag on and off
+    chars, nsl, sl = list(CHARSEQ), 6, run.seed % 6
   else:
     flags = [0, 1 + run.seed % (NFLAGSETS - 1)]
     chars = ["ff", CHARSEQ[1 + run.seed % (len(CHARSEQ) - 1)]]
@@ -737,15 +740,15 @@ def main():
           "inputs_upstream": 1000 if thorough else 100, "fold_errors": 2, "skipped": 1,
           "runs_with_subruns": 200 if thorough else 20, "subruns_compile_error_caught": 1,
           # the strengthened families
-          "inputs_call": 400 if thorough else 25, "inputs_provoke": 100 if thorough else 55,
-          "inputs_compose": 4000 if thorough else 240, "inputs_exo": 1000 if thorough else 20,
-          "failed_calls": 60000 if thorough else 3000, "failed_calls_reported": 50000 if thorough else 2500,
-          "failed_calls_empty_arglist": 1000 if thorough else 60,
-          "failed_calls_empty_arglist_self_or_cls_function": 100 if thorough else 8,
-          "exotic_harmless_confirmed": 4000 if thorough else 180, "exotic_invalid_confirmed": 1500 if thorough else 50,
-          "harmless_exotic_in_rewritten_text": 1000 if thorough else 50,
-          "harmless_exotic_in_rewritten_noncompilable_text": 300 if thorough else 15,
-          "harmless_exotic_in_rewritten_text_with_error_on_last_line": 150 if thorough else 8}
+          "inputs_call": 200 if thorough else 25, "inputs_provoke": 100 if thorough else 55,
+          "inputs_compose": 2000 if thorough else 240, "inputs_exo": 700 if thorough else 20,
+          "failed_calls": 35000 if thorough else 3000, "failed_calls_reported": 30000 if thorough else 2500,
+          "failed_calls_empty_arglist": 800 if thorough else 60,
+          "failed_calls_empty_arglist_self_or_cls_function": 80 if thorough else 8,
+          "exotic_harmless_confirmed": 1500 if thorough else 180, "exotic_invalid_confirmed": 600 if thorough else 50,
+          "harmless_exotic_in_rewritten_text": 400 if thorough else 50,
+          "harmless_exotic_in_rewritten_noncompilable_text": 100 if thorough else 15,
+          "harmless_exotic_in_rewritten_text_with_error_on_last_line": 80 if thorough else 8}
   vac = ["%s = %d < %d" % (k, run.cov.get(k, 0), v) for k, v in need.items() if run.cov.get(k, 0) < v]
   # vacuity on the error names observed, as named by TraceC15's COVER lines: every class of the pinned
   # catalogue is reported by its provoking text; the call family alone reaches every failed-call class
